@@ -4,6 +4,8 @@
 // processTransaction() is run and the observables are dumped: routing polygons, route() and
 // displayRoute() of every connector, the polyline visibility graph (with vertex ids) and the
 // orthogonal visibility graph.  Routers are deleted at the end (ASan/LSan build).
+// Hyperedge classes (tags orth-hyperedge, orth-hyperedge-major, orth-hyperedge-random): orthogonal router with
+// hyperedge improvement, one free junction joined to 3..5 terminals; see runHyperCase.
 #include "avoid_scene.h"
 #include <unistd.h>
 #include <sys/wait.h>
@@ -90,6 +92,38 @@ static void runBody(const vs::Scene &s, const std::vector<ConnSpec> &conns, cons
     delete router;
 }
 
+// Run `body` in a child process, so that a failed assertion / sanitizer abort inside libavoid ends this
+// case only: the parent then emits a `crash` line (with the headline of the child's stderr) and
+// continues with the next case.  LSan runs at the child's exit().
+template <class F> static void forkRun(F body) {
+    int fds[2];
+    if (pipe(fds) != 0) { perror("pipe"); exit(3); }
+    fflush(stdout);
+    pid_t pid = fork();
+    if (pid == 0) {
+        close(fds[0]); dup2(fds[1], 2); close(fds[1]);
+        body();
+        fflush(stdout);
+        exit(0);
+    }
+    close(fds[1]);
+    std::string err; char buf[4096]; ssize_t n;
+    while ((n = read(fds[0], buf, sizeof buf)) > 0) if (err.size() < 20000) err.append(buf, (size_t) n);
+    close(fds[0]);
+    int status = 0; waitpid(pid, &status, 0);
+    if (!(WIFEXITED(status) && WEXITSTATUS(status) == 0)) {
+        // one-line summary: the assertion / sanitizer headline
+        std::string line;
+        size_t pos = err.find("Assertion"); if (pos == std::string::npos) pos = err.find("ERROR: "); if (pos == std::string::npos) pos = err.find("runtime error");
+        if (pos == std::string::npos) pos = 0;
+        size_t b = err.rfind('\n', pos); b = (b == std::string::npos) ? 0 : b + 1;
+        size_t e = err.find('\n', pos); line = err.substr(b, (e == std::string::npos ? err.size() : e) - b);
+        for (auto &ch : line) if (ch == '\r' || ch == '\t') ch = ' ';
+        printf("crash %s %d : %s\n", WIFSIGNALED(status) ? "signal" : "exit", WIFSIGNALED(status) ? WTERMSIG(status) : WEXITSTATUS(status), line.c_str());
+        fprintf(stderr, "%s\n", err.c_str());
+    }
+}
+
 static void runCase(long k, const char *tagIn, const vs::Scene &s, const std::vector<ConnSpec> &conns, const Cfg &cfg) {
     // Finding classes get their own tag (classes are kept disjoint by the generator):
     //   naive-vis-collinear / lee-collinear : polyline routing on a scene with three collinear graph points
@@ -111,36 +145,72 @@ static void runCase(long k, const char *tagIn, const vs::Scene &s, const std::ve
     for (auto &c : conns) printf("conn %u %s %s %s %s %s\n", c.id, vh::hx(c.sx).c_str(), vh::hx(c.sy).c_str(),
                                  vh::hx(c.dx).c_str(), vh::hx(c.dy).c_str(), c.orth ? "orth" : "poly");
     fflush(stdout);
-    // ---- run in a child process, so that a failed assertion / sanitizer abort inside libavoid ends this
-    //      case only: the parent then emits a `crash` line (with the first line of the child's stderr)
-    //      and continues with the next case.  LSan runs at the child's exit().
-    int fds[2];
-    if (pipe(fds) != 0) { perror("pipe"); exit(3); }
-    fflush(stdout);
-    pid_t pid = fork();
-    if (pid == 0) {
-        close(fds[0]); dup2(fds[1], 2); close(fds[1]);
-        runBody(s, conns, cfg);
-        fflush(stdout);
-        exit(0);
-    }
-    close(fds[1]);
-    std::string err; char buf[4096]; ssize_t n;
-    while ((n = read(fds[0], buf, sizeof buf)) > 0) if (err.size() < 20000) err.append(buf, (size_t) n);
-    close(fds[0]);
-    int status = 0; waitpid(pid, &status, 0);
-    if (!(WIFEXITED(status) && WEXITSTATUS(status) == 0)) {
-        // one-line summary: the assertion / sanitizer headline
-        std::string line;
-        size_t pos = err.find("Assertion"); if (pos == std::string::npos) pos = err.find("ERROR: "); if (pos == std::string::npos) pos = err.find("runtime error");
-        if (pos == std::string::npos) pos = 0;
-        size_t b = err.rfind('\n', pos); b = (b == std::string::npos) ? 0 : b + 1;
-        size_t e = err.find('\n', pos); line = err.substr(b, (e == std::string::npos ? err.size() : e) - b);
-        for (auto &ch : line) if (ch == '\r' || ch == '\t') ch = ' ';
-        printf("crash %s %d : %s\n", WIFSIGNALED(status) ? "signal" : "exit", WIFSIGNALED(status) ? WTERMSIG(status) : WEXITSTATUS(status), line.c_str());
-        fprintf(stderr, "%s\n", err.c_str());
-    }
+    forkRun([&]() { runBody(s, conns, cfg); });
     vh::endCase();
+}
+
+
+// ---- hyperedge class: orthogonal router, one free junction joined to 3..5 terminals, hyperedge
+//      improvement on.  The expected attachment of a junction end is the junction's
+//      recommendedPosition() after routing (the improver moves free junctions), so the `conn` lines of
+//      this class are printed after the transaction, together with the routes.
+struct Terminal { double x, y; unsigned dirs; };
+
+static void runHyperCase(long k, const char *tag, const vs::Scene &s, Point jpos, const std::vector<Terminal> &terms,
+                         double buffer, bool major, double segPenalty, double nudgeDist) {
+    vh::beginCase(k, tag);
+    printf("cfg poly 0 orth 1 lee 1 ignoreRegions 1 invis 1\n");
+    if (buffer > 0) printf("param shapeBufferDistance %s\n", vh::hx(buffer).c_str());
+    if (segPenalty > 0) printf("param segmentPenalty %s\n", vh::hx(segPenalty).c_str());
+    if (nudgeDist > 0) printf("param idealNudgingDistance %s\n", vh::hx(nudgeDist).c_str());
+    printf("option %s 1\n", major ? "improveHyperedgeRoutesMovingAddingAndDeletingJunctions" : "improveHyperedgeRoutesMovingJunctions");
+    for (size_t i = 0; i < s.shapes.size(); ++i) vs::printShape((unsigned) (i + 1), s.shapes[i]);
+    printf("hjunction 500 %s %s\n", vh::hx(jpos.x).c_str(), vh::hx(jpos.y).c_str());
+    for (size_t i = 0; i < terms.size(); ++i) printf("hterm %zu %s %s %u\n", 101 + i, vh::hx(terms[i].x).c_str(), vh::hx(terms[i].y).c_str(), terms[i].dirs);
+    fflush(stdout);
+    forkRun([&]() {
+        Router *router = new Router(OrthogonalRouting);
+        if (buffer > 0) router->setRoutingParameter(shapeBufferDistance, buffer);
+        if (segPenalty > 0) router->setRoutingParameter(segmentPenalty, segPenalty);
+        if (nudgeDist > 0) router->setRoutingParameter(idealNudgingDistance, nudgeDist);
+        router->setRoutingOption(major ? improveHyperedgeRoutesMovingAddingAndDeletingJunctions : improveHyperedgeRoutesMovingJunctions, true);
+        std::vector<ShapeRef *> shapes;
+        for (size_t i = 0; i < s.shapes.size(); ++i) { Polygon p = vs::toAvoid(s.shapes[i]); shapes.push_back(new ShapeRef(router, p, (unsigned) (i + 1))); }
+        JunctionRef *j = new JunctionRef(router, jpos, 500);
+        j->setPositionFixed(false);
+        for (size_t i = 0; i < terms.size(); ++i) {
+            ConnRef *c = new ConnRef(router, ConnEnd(j), ConnEnd(Point(terms[i].x, terms[i].y), terms[i].dirs), (unsigned) (101 + i));
+            c->setRoutingType(ConnType_Orthogonal);
+        }
+        router->processTransaction();
+        for (size_t i = 0; i < shapes.size(); ++i) vs::printPts("rpoly", (unsigned) (i + 1), shapes[i]->routingPolygon().ps);
+        HyperedgeNewAndDeletedObjectLists nd = router->newAndDeletedObjectListsFromHyperedgeImprovement();
+        printf("hchanges newJ %zu newC %zu delJ %zu delC %zu\n", nd.newJunctionList.size(), nd.newConnectorList.size(),
+               nd.deletedJunctionList.size(), nd.deletedConnectorList.size());
+        for (ConnRefList::const_iterator it = router->connRefs.begin(); it != router->connRefs.end(); ++it) {
+            ConnRef *c = *it;
+            if (std::find(nd.deletedConnectorList.begin(), nd.deletedConnectorList.end(), c) != nd.deletedConnectorList.end()) continue;
+            std::pair<ConnEnd, ConnEnd> ends = c->endpointConnEnds();
+            Point e[2];
+            for (int q = 0; q < 2; ++q) {
+                const ConnEnd &ce = q ? ends.second : ends.first;
+                e[q] = ce.junction() ? ce.junction()->recommendedPosition() : ce.position();
+            }
+            printf("conn %u %s %s %s %s orth\n", c->id(), vh::hx(e[0].x).c_str(), vh::hx(e[0].y).c_str(), vh::hx(e[1].x).c_str(), vh::hx(e[1].y).c_str());
+            vs::printPts("route", c->id(), c->route().ps);
+            vs::printPts("display", c->id(), c->displayRoute().ps);
+        }
+        delete router;
+    });
+    vh::endCase();
+}
+
+static unsigned xformDirs(unsigned d, bool mx, bool my, bool tr) {
+    bool up = d & ConnDirUp, down = d & ConnDirDown, left = d & ConnDirLeft, right = d & ConnDirRight;
+    if (mx) std::swap(left, right);
+    if (my) std::swap(up, down);
+    if (tr) { std::swap(up, left); std::swap(down, right); }
+    return (up ? ConnDirUp : 0) | (down ? ConnDirDown : 0) | (left ? ConnDirLeft : 0) | (right ? ConnDirRight : 0);
 }
 
 static void setParam(Cfg &c, RoutingParameter p, double v) { c.param[p] = v; c.paramSet[p] = true; }
@@ -248,6 +318,106 @@ int main(int argc, char **argv) {
         }
         if (cs.empty()) { vh::beginCase(k, "empty"); vh::endCase(); continue; }
         runCase(k, tag, s, cs, cfg);
+    }
+    // ---- hyperedge scenes (tag orth-hyperedge), after the random scenes so that their indices stay put
+    long nhyper = (thorough ? 240 : 60) * a.scale;
+    for (long c = 0; c < nhyper; ++c, ++k) {
+        if (!a.want(k)) continue;
+        vh::Rng r = vh::caseRng(a.seed, k, 7);
+        double buffer = r.coin(1, 2) ? 0 : (double) r.range(1, 4);
+        bool major = r.coin(1, 3);
+        double segPen = r.coin(2, 3) ? 0 : (r.coin() ? 10 : 100);       // 0 = library default (10)
+        double nudge = r.coin(2, 3) ? 0 : (double) r.range(2, 8);
+        vs::Scene s; std::vector<Terminal> terms; Point jpos;
+        bool zfam = r.coin(2, 3), nearAligned = false;
+        if (zfam) {
+            // "z-branch" family: junction J with terminals TA (up-left), TB (up-right), TC (below); a big shape P
+            // right of J forces the J-TB branch into a z whose horizontal part runs under a small shape O that
+            // lies between it and TB's level; the improver shifts the J segment up to it, merges, and shifts the
+            // merged segment on towards TB: it has to stop at the underside of O.
+            // layout units (scaled by U): J(10,15) TA(0,0) TB(20,5) TC(10,30) P[16,26]x[10,20] O[13,17]x[4,6]
+            long U = r.range(6, 14);
+            long ox0 = r.range(12, 14), ox1 = r.range(16, 18), oy0 = r.range(2, 4), oy1 = r.range(6, 8);
+            long px0 = r.range(15, 17), py0 = r.range(9, 11), px1 = r.range(24, 28), py1 = r.range(18, 22);
+            long tbx = r.range(19, 22), tby = r.range(oy0 + 1, oy1 - 1);
+            long tax = r.range(-2, 2), tay = r.range(-2, 1), tcx = r.range(9, 11), tcy = r.range(27, 33);
+            long jx = r.range(9, 11), jy = r.range(14, 16);
+            std::vector<vs::IPoly> polys;
+            polys.push_back(vs::rectPoly(ox0, oy0, ox1, oy1));
+            polys.push_back(vs::rectPoly(px0, py0, px1, py1));
+            polys.push_back(vs::rectPoly(-24, -24, -22, -22));          // far-away shapes: keep everything off the
+            polys.push_back(vs::rectPoly(42, 42, 44, 44));              // outer edge of the visibility graph
+            if (r.coin(1, 3)) polys.push_back(vs::rectPoly(r.range(-12, -8), r.range(8, 12), r.range(-6, -3), r.range(14, 22)));   // bystander left of J
+            struct T0 { long x, y; unsigned d; };
+            std::vector<T0> ts;
+            ts.push_back({tax, tay, ConnDirDown}); ts.push_back({tbx, tby, ConnDirDown}); ts.push_back({tcx, tcy, ConnDirUp});
+            if (r.coin(1, 3)) ts.push_back({r.range(2, 6), r.range(34, 38), (unsigned) (r.coin() ? ConnDirUp : ConnDirAll)});     // second lower terminal
+            if (r.coin(1, 4)) ts.push_back({r.range(-8, -4), r.range(-3, 0), ConnDirDown});                                      // second upper-left terminal
+            bool mx = r.coin(), my = r.coin(), tr = r.coin();
+            auto X = [&](long x, long y, double &ox, double &oy) {
+                double fx = (double) (mx ? 20 - x : x) * U, fy = (double) (my ? 30 - y : y) * U;
+                if (tr) std::swap(fx, fy);
+                ox = fx; oy = fy;
+            };
+            for (auto &p : polys) {
+                double x0, y0, x1, y1; X(p[3].x, p[3].y, x0, y0); X(p[1].x, p[1].y, x1, y1);
+                s.shapes.push_back(vs::toD(vs::rectPoly((long) std::min(x0, x1), (long) std::min(y0, y1), (long) std::max(x0, x1), (long) std::max(y0, y1))));
+                s.isRect.push_back(true);
+            }
+            for (auto &t : ts) { Terminal q; X(t.x, t.y, q.x, q.y); q.dirs = t.d == ConnDirAll ? ConnDirAll : xformDirs(t.d, mx, my, tr); terms.push_back(q); }
+            X(jx, jy, jpos.x, jpos.y);
+            s.W = 44 * U; s.H = 44 * U;
+            // O and P must both survive: their routing polygons stay disjoint if 2*buffer <= gap between them
+            double gap = (double) ((py0 - oy1) * U);
+            if (2 * buffer > gap) buffer = std::floor(gap / 2);
+        } else {
+            // random: grid scene scaled by 10, junction and 3..5 terminals at free points
+            vs::SceneOpts so; so.nShapesMin = 2; so.nShapesMax = thorough ? 14 : 9; so.rectPct = 100; so.margin = 1; so.fullCellPct = 10;
+            vs::Scene g = vs::genScene(r, so);
+            for (auto &p : g.shapes) { vs::DPoly q = p; for (auto &v : q) { v.x *= 10; v.y *= 10; } s.shapes.push_back(q); s.isRect.push_back(true); }
+            s.W = g.W * 10; s.H = g.H * 10;
+            std::vector<vs::DPoly> rp = vs::routingPolys(s, buffer);
+            vs::Scene gs = s; gs.W = s.W; gs.H = s.H;
+            double x, y;
+            auto freeP = [&](double &ox, double &oy) {
+                for (int t = 0; t < 300; ++t) {
+                    double px = (double) r.range(-10, s.W + 10), py = (double) r.range(-10, s.H + 10);
+                    bool ok = true;
+                    for (size_t i = 0; i < rp.size() && ok; ++i) if (vs::inClosedD(rp[i], px, py, 2.0)) ok = false;
+                    if (ok) { ox = px; oy = py; return true; }
+                }
+                return false;
+            };
+            if (!freeP(x, y)) { vh::beginCase(k, "empty"); vh::endCase(); continue; }
+            jpos = Point(x, y);
+            int nt = (int) r.range(3, 5);
+            // terminals whose x or y differs only slightly from the junction's or another terminal's produce
+            // very short hyperedge segments; that sub-class ("near-aligned") is kept apart
+            nearAligned = r.coin(1, 2);
+            for (int i = 0; i < nt; ++i) {
+                Terminal q; bool ok = false;
+                for (int t = 0; t < 40 && !ok; ++t) {
+                    if (!freeP(q.x, q.y)) break;
+                    ok = true;
+                    if (!nearAligned) {
+                        auto close = [](double u, double v) { return u != v && std::fabs(u - v) < 12; };
+                        if (close(q.x, jpos.x) || close(q.y, jpos.y)) ok = false;
+                        for (auto &o : terms) if (close(q.x, o.x) || close(q.y, o.y)) ok = false;
+                    }
+                }
+                if (!ok) continue;
+                q.dirs = ConnDirAll; if (q.x == jpos.x && q.y == jpos.y) continue; terms.push_back(q);
+            }
+            if (terms.size() < 3) { vh::beginCase(k, "empty"); vh::endCase(); continue; }
+        }
+        if (buffer > 0) {       // keep the routing polygons interior-disjoint and the points outside them
+            vs::makeRoutingDisjoint(s, buffer);
+            std::vector<vs::DPoly> rp = vs::routingPolys(s, buffer);
+            bool ok = true;
+            for (auto &q : rp) { if (vs::inClosedD(q, jpos.x, jpos.y, 0.5)) ok = false; for (auto &t : terms) if (vs::inClosedD(q, t.x, t.y, 0.5)) ok = false; }
+            if (!ok) buffer = 0;
+        }
+        runHyperCase(k, zfam ? (major ? "orth-hyperedge-major" : "orth-hyperedge") : "orth-hyperedge-random", s, jpos, terms, buffer, major, segPen, nudge);
     }
     return 0;
 }
